@@ -296,9 +296,8 @@ func tryConcreteReplay(ld *Loader, r *Replay, o *Obligation, results []*FuncResu
 	}
 	x := fr.Exec
 	vc := fr.VC
-	if vc.mode != "bv" {
-		r.Note = "concrete replay is implemented for bit-vector mode functions with scalar/struct inputs; model attached"
-		attachModel(r, vc, o, dir)
+	if vc.mode != "bv" || x.pkg.Types.Name() != "risc" {
+		genericReplay(ld, r, o, fr, dir)
 		return
 	}
 	sig := x.fnObj.Type().(*types.Signature)
@@ -308,8 +307,7 @@ func tryConcreteReplay(ld *Loader, r *Replay, o *Obligation, results []*FuncResu
 	if sig.Recv() != nil {
 		et, isPtr := deref(sig.Recv().Type())
 		if !isPtr || !isStruct(et) {
-			r.Note = "receiver shape not supported by the replay builder; model attached"
-			attachModel(r, vc, o, dir)
+			genericReplay(ld, r, o, fr, dir)
 			return
 		}
 		recvStruct = et
@@ -337,16 +335,14 @@ func tryConcreteReplay(ld *Loader, r *Replay, o *Obligation, results []*FuncResu
 				ctxName = p.Name()
 				continue
 			}
-			r.Note = "pointer parameter not supported by the replay builder; model attached"
-			attachModel(r, vc, o, dir)
+			genericReplay(ld, r, o, fr, dir)
 			return
 		case *types.Map:
 			if p.Name() == "labels" {
 				labelsName = p.Name()
 				continue
 			}
-			r.Note = "map parameter not supported by the replay builder; model attached"
-			attachModel(r, vc, o, dir)
+			genericReplay(ld, r, o, fr, dir)
 			return
 		case *types.Slice:
 			if b, ok := u.Elem().Underlying().(*types.Basic); ok && b.Kind() == types.Int8 && p.Name() == "memory" {
@@ -358,12 +354,10 @@ func tryConcreteReplay(ld *Loader, r *Replay, o *Obligation, results []*FuncResu
 				}
 				continue
 			}
-			r.Note = "slice parameter not supported by the replay builder; model attached"
-			attachModel(r, vc, o, dir)
+			genericReplay(ld, r, o, fr, dir)
 			return
 		default:
-			r.Note = "parameter type not supported by the replay builder; model attached"
-			attachModel(r, vc, o, dir)
+			genericReplay(ld, r, o, fr, dir)
 			return
 		}
 	}
